@@ -248,7 +248,7 @@ func (f *fixture) quicConn() (quic.Connection, error) {
 	ctx, cancel := context.WithTimeout(context.Background(), 3*time.Second)
 	defer cancel()
 	c, err := quic.DialAddr(ctx, fmt.Sprintf("127.0.0.1:%d", f.ports["quic"]),
-		&tls.Config{InsecureSkipVerify: true, NextProtos: []string{"doq"}}, &quic.Config{MaxIdleTimeout: 20 * time.Second})
+		&tls.Config{InsecureSkipVerify: true, NextProtos: []string{"doq"}}, &quic.Config{MaxIdleTimeout: 20 * time.Second, KeepAlivePeriod: 500 * time.Millisecond})
 	if err != nil {
 		return nil, err
 	}
